@@ -1,5 +1,7 @@
 #!/bin/bash
 # usage: seedrun.sh <patch.diff> <check-id>...   : apply a seeded change to /repo, run the quick checks, undo.
+# Each check runs first at plain quick depth (CPF_NO_ADAPTIVE=1); when that misses, again with the adaptive
+# depth the registered command has (changed functions deepen the generators).
 P="$1"; shift
 cd /repo || exit 2
 if [ -n "$(git status --porcelain --untracked-files=no)" ]; then echo "repo not clean"; exit 2; fi
@@ -7,7 +9,12 @@ git apply "$P" || { echo "patch does not apply"; exit 2; }
 trap 'git -C /repo checkout -- . ' EXIT
 cd /verif
 for id in "$@"; do
-  echo "--- $id"
-  ./check "$id" quick 2>&1 | grep -a "VIOLATION\|KNOWN-FINDING\|Traceback" | cut -c1-330 | head -6
-  echo "rc=${PIPESTATUS[0]}"
+  echo "--- $id (plain quick)"
+  CPF_NO_ADAPTIVE=1 ./check "$id" quick 2>&1 | grep -a "VIOLATION\|KNOWN-FINDING\|Traceback" | cut -c1-330 | head -6
+  rc=${PIPESTATUS[0]}; echo "rc=$rc"
+  if [ "$rc" = "0" ]; then
+    echo "--- $id (adaptive depth)"
+    ./check "$id" quick 2>&1 | grep -a "VIOLATION\|KNOWN-FINDING\|Traceback\|adaptive depth" | cut -c1-330 | head -6
+    echo "rc=${PIPESTATUS[0]}"
+  fi
 done
